@@ -13,6 +13,8 @@
 package c16
 
 import (
+	"bytes"
+	"compress/flate"
 	"crypto/tls"
 	"encoding/binary"
 	"fmt"
@@ -151,7 +153,7 @@ func TestC16HostileWS(t *testing.T) {
 			}
 			exclusive := p.Name == "pair" || p.Name == "xpair" || p.Name == "pair1" || p.Name == "xpair1"
 			balancer := p.Name == "req" || p.Name == "xreq" || p.Name == "push" || p.Name == "xpush"
-			kinds := append([]string{"silent-tcp", "garbage-http", "wrong-subprotocol", "no-subprotocol"}, wsFrameKinds...)
+			kinds := append([]string{"silent-tcp", "garbage-http", "wrong-subprotocol", "no-subprotocol", "deflate-bomb"}, wsFrameKinds...)
 			if !exclusive && !balancer {
 				kinds = append(kinds, "silent-upgraded")
 			}
@@ -161,7 +163,12 @@ func TestC16HostileWS(t *testing.T) {
 				k := rapid.SampledFrom(kinds).Draw(t, "script")
 				a := int64(rapid.IntRange(0, 7).Draw(t, "arg"))
 				switch {
-				case L == 0 && (k == "oversize" || k == "huge" || k == "oversize-fragmented"):
+				case k == "deflate-bomb" && role == "dialer":
+					k = "oversize"
+					if L == 0 {
+						k = "msb-length"
+					}
+				case L == 0 && (k == "oversize" || k == "huge" || k == "oversize-fragmented" || k == "deflate-bomb"):
 					k = "msb-length" // without a limit only an invalid length is out of bounds
 				case L > 1000 && k == "oversize-fragmented":
 					k = "oversize"
@@ -289,6 +296,48 @@ func TestC16HostileWS(t *testing.T) {
 								fail("wrong-subprotocol-attached", "a client offering %q (selected %q) was attached as a peer", offer, sel)
 								return
 							}
+						}
+					case "deflate-bomb":
+						// the client offers permessage-deflate and sends a small compressed frame that
+						// inflates to more than the limit: whether or not the listener takes the offer,
+						// no message above the limit may come out of it and the offender must go
+						req := "GET /sp HTTP/1.1\r\nHost: " + host + "\r\nUpgrade: websocket\r\nConnection: Upgrade\r\nSec-WebSocket-Key: dGhlIHNhbXBsZSBub25jZQ==\r\nSec-WebSocket-Version: 13\r\n" +
+							"Sec-WebSocket-Protocol: " + selfSub + "\r\nSec-WebSocket-Extensions: permessage-deflate; server_no_context_takeover; client_no_context_takeover\r\n\r\n"
+						_, _ = c.Write([]byte(req))
+						head := make([]byte, 0, 1024)
+						one := make([]byte, 1)
+						for !bytes.HasSuffix(head, []byte("\r\n\r\n")) && len(head) < 4096 {
+							if _, err := c.Read(one); err != nil {
+								break
+							}
+							head = append(head, one[0])
+						}
+						if !bytes.Contains(head, []byte(" 101 ")) {
+							if exclusive {
+								break
+							}
+							fail("upgrade-refused", "a well-formed upgrade request offering permessage-deflate was refused: %q", head)
+							return
+						}
+						if bytes.Contains(bytes.ToLower(head), []byte("permessage-deflate")) {
+							stats.Class("ws-deflate-negotiated")
+						}
+						wasAttached := !exclusive && sev.WaitAttached(a0+1, 2*time.Second)
+						n := 4*L + 4096 + int(sc.Arg)
+						var zb bytes.Buffer
+						fw, _ := flate.NewWriter(&zb, flate.BestCompression)
+						_, _ = fw.Write(make([]byte, n))
+						_ = fw.Flush()
+						comp := zb.Bytes()
+						comp = comp[:len(comp)-4] // RFC 7692: without the trailing 00 00 ff ff
+						_, _ = c.Write(rawFrameHead(0xc2, uint64(len(comp)), true, false))
+						_, _ = c.Write(comp)
+						if !droppedWithin(c, 3*time.Second) {
+							fail("offender-not-dropped:deflate-bomb", "a client sent a %d-byte compressed frame that inflates to %d bytes (limit %d) and is still connected 3s later", len(comp), n, L)
+							return
+						}
+						if wasAttached {
+							sev.WaitDetached(d0+1, time.Second)
 						}
 					default:
 						wc, _, err := wire.WSDial(c, host, "/sp", []string{selfSub})
